@@ -991,6 +991,21 @@ impl<'a> G<'a> {
                 // ignored expression statement (result register mode: none). Pure operators whose
                 // result is unused are compiled for side effects only, so the statement is a traced
                 // call: calls always run.
+                let nums: Vec<String> = self.vars.iter().filter(|v| v.writable && v.kind == K::Num).map(|v| v.name.clone()).collect();
+                if !nums.is_empty() && self.s.chance(40) {
+                    // `and` / `or` in statement position: the value is discarded, the right operand
+                    // (an assignment or a traced call) must still be guarded by the left one
+                    self.feat("logic-statement");
+                    let name = self.s.pick(&nums).clone();
+                    let cond = self.expr(K::Bool, 2);
+                    let op = if self.s.chance(50) { Op::And } else { Op::Or };
+                    let rhs = match self.s.below(3) {
+                        0 => E::Paren(bx(E::Assign(bx(id(&name)), Some(Op::Add), bx(E::Int(10))))),
+                        1 => E::Paren(bx(E::Assign(bx(id(&name)), None, bx(E::Int(7))))),
+                        _ => E::Call(bx(id("tr")), vec![(E::Int(99), false)]),
+                    };
+                    return self.pack(vec![E::Bin(op, bx(cond), bx(rhs)), E::Print(vec![id(&name)])]);
+                }
                 self.feat("ignored-expression");
                 let k = *self.s.pick(&VALUE_KINDS);
                 let e = self.expr(k, 3);
